@@ -184,9 +184,10 @@ def applyRecL (m : Macro) : List Y → M (List Y × List RmOp)
 end
 
 mutual
-/-- `_find_macro_names`: every string leaf, dict key or dict value that starts with `@` -/
+/-- `_find_macro_names`: every string leaf, dict key or dict value that contains an `@`
+(a reference may sit inside a longer name: `%@reg`) -/
 def findMacroNames : Y → List Str
-  | .str s => if isMacroName s then [s] else []
+  | .str s => if s.contains '@' then [s] else []
   | .list l => findMacroNamesL l
   | .dict d => findMacroNamesD d
   | _ => []
